@@ -1,5 +1,5 @@
 (* C02, mscu part.  Statements only; proofs in Proofs/SmcMscuProofs.v. *)
-From DS Require Import Base.Prelude Model.SmcBase Model.SmcMscu Proofs.SmcMscuProofs.
+From DS Require Import Base.Prelude Model.SmcBase Model.SmcMscu Proofs.SmcMscuProofs Proofs.SmcMscuInv.
 
 (* getspar (and getappstatus) are answered by every servo in every state *)
 Theorem C02_mscu_getspar : forall fx e d a s num ps,
@@ -37,6 +37,34 @@ Theorem C02_mscu_clean_clean_getpos_fixed :
   = OReply ($"?getpos:0=1> 1000,-125,-125,-125,0,0,0" ++ crlf).
 Proof. exact ms_f22_fixed. Qed.
 Print Assumptions C02_mscu_clean_clean_getpos_fixed.
-(* PARTIAL: no invariant "every reachable history is non-empty and interpolates without overflow"
-   is proved; History.get can still fail on a history emptied by clean when every entry is dated in
-   the future (needs 2^15 future-dated setpos first) and on operands beyond the float range. *)
+(* Reachable-state invariant (code with fixes/22): in every state reached from construction by fewer
+   than 2^15 - 2 events (bytes, clock changes, NAK switches) under a clock that never runs backwards,
+   every servo history holds an entry that is not dated later than now (so it is non-empty and
+   History.clean cannot empty it) and all its entries have the servo's number of axes. *)
+Theorem C02_mscu_reachable_invariant : forall e t0 evs,
+  mono t0 evs -> Z.of_nat (length evs) + 2 <= hist_cap ->
+  dinv (dv (fst (run (step true e) (init t0) evs))).
+Proof. exact ms_reachable_inv. Qed.
+Print Assumptions C02_mscu_reachable_invariant.
+
+(* Under the invariant getpos and getstatus are answered by every servo - or History.get raises
+   OverflowError, the recorded known class mscu_query_OverflowError; IndexError is impossible.
+   (py_repr total = the harness table covers every float that is rendered.) *)
+Theorem C02_mscu_getpos_unconditional : forall fx e d a s num,
+  dinv d -> nth_opt a (servos d) = Some s -> (forall b, py_repr e b <> None) ->
+  (exists r, exec_servo fx e d a s $"getpos" num [] = (d, OReply r)) \/
+  (positions_r (hist s) (now d) = POverflow /\ exec_servo fx e d a s $"getpos" num [] = (d, OException)).
+Proof. exact ms_getpos_unconditional. Qed.
+Print Assumptions C02_mscu_getpos_unconditional.
+
+Theorem C02_mscu_getstatus_unconditional : forall fx e d a s num,
+  dinv d -> nth_opt a (servos d) = Some s -> (forall b, py_repr e b <> None) ->
+  (exists r, exec_servo fx e d a s $"getstatus" num [] = (d, OReply r)) \/
+  (positions_r (hist s) (now d) = POverflow /\ exec_servo fx e d a s $"getstatus" num [] = (d, OException)).
+Proof. exact ms_getstatus_unconditional. Qed.
+Print Assumptions C02_mscu_getstatus_unconditional.
+
+(* The bound on the number of events is necessary: after 2^15 future-dated setpos the two initial
+   entries have been pushed out of the 2^15-entry window, clean removes everything and getpos dies
+   with IndexError (reproduced on the real class, known finding
+   mscu_history_emptied_after_2pow15_future_setpos). *)
